@@ -499,7 +499,7 @@ theorem fit_thresholdIdx_pos : 0 < (thresholdIdx r xs ys).length := by
   rw [fit_thresholdIdx_eq]; simp
 
 /-- the first position of every block is a threshold -/
-theorem fit_start_mem (h : fit_RVec r n) (k : Nat) (hk : k + 1 < r.length) :
+theorem fit_start_mem (_h : fit_RVec r n) (k : Nat) (hk : k + 1 < r.length) :
     r[k]! ∈ thresholdIdx r xs ys := by
   rw [fit_mem_thresholdIdx]
   rcases Nat.eq_zero_or_pos k with rfl | hpos
@@ -561,5 +561,924 @@ theorem fit_last_not_mem (h : fit_RVec r n) (hm : n - 1 ∉ thresholdIdx r xs ys
   exact hm ((fit_last_mem_iff h).mpr (Or.inr hcon))
 
 end ThresholdIdx
+
+/-! ## C. Predictions at the training points -/
+
+section Train
+variable {r : List Nat} {n : Nat} {xs ys : List K}
+
+/-- every position lies in exactly one block `[r[k], r[k+1])` -/
+theorem fit_block_of (h : fit_RVec r n) (p : Nat) (hp : p < n) :
+    ∃ k, k + 1 < r.length ∧ r[k]! ≤ p ∧ p < r[k + 1]! := by
+  have hlen := h.len
+  have h0 : r[0]! ≤ p := by rw [h.first]; exact Nat.zero_le p
+  obtain ⟨hpk, _⟩ := fit_lastIdx_spec (fun i => r[i]! ≤ p) r.length 0 (by omega) h0
+  have hmax := fit_lastIdx_spec (fun i => r[i]! ≤ p) r.length
+  have hb := fit_lastIdx_bound (fun i => r[i]! ≤ p) r.length
+  generalize fit_lastIdx (fun i => r[i]! ≤ p) r.length = k at *
+  have hk : k < r.length := by omega
+  have hk1 : k + 1 < r.length := by
+    by_contra hcon
+    have : k = r.length - 1 := by omega
+    subst this
+    have hl := h.last
+    have hpk' : r[r.length - 1]! ≤ p := hpk
+    omega
+  refine ⟨k, hk1, hpk, ?_⟩
+  by_contra hcon
+  rw [not_lt] at hcon
+  have := (hmax (k + 1) hk1 hcon).2
+  omega
+
+/-- the fitted sequence is constant on a block -/
+theorem fit_same_block (hb : BlockVec ys r) (h : fit_RVec r ys.length) {k i j : Nat}
+    (hk : k + 1 < r.length) (hki : r[k]! ≤ i) (hij : i ≤ j) (hjk : j < r[k + 1]!) :
+    ys[i]! = ys[j]! := by
+  have hj : j < ys.length := lt_of_lt_of_le hjk (h.le_n hk)
+  apply fit_get!_of_get?
+  apply hb.const i j hij hj
+  intro b hbm
+  obtain ⟨l, hl, rfl⟩ := fit_mem_get! hbm
+  by_cases hlk : l ≤ k
+  · left; exact le_trans (h.le hlk (by omega)) hki
+  · right; exact lt_of_lt_of_le hjk (h.le (show k + 1 ≤ l by omega) hl)
+
+/-- in a strictly increasing list the entries at positions `j, j+1` are neighbours: any member
+below the upper one is at most the lower one -/
+theorem fit_strict_neighbours {l : List Nat} (hl : l.Pairwise (· < ·)) {j c : Nat}
+    (hj : j + 1 < l.length) (hc : c ∈ l) (hlt : c < l[j + 1]!) : c ≤ l[j]! := by
+  obtain ⟨i, hi, rfl⟩ := fit_mem_get! hc
+  have : i < j + 1 := by
+    by_contra hcon
+    rw [not_lt] at hcon
+    rcases Nat.eq_or_lt_of_le hcon with he | hlt'
+    · rw [he] at hlt; exact lt_irrefl _ hlt
+    · have := fit_pairwise_get! hl hlt' hi
+      omega
+  rcases Nat.eq_or_lt_of_le (Nat.lt_succ_iff.mp this) with he | hlt'
+  · rw [he]
+  · exact (fit_pairwise_get! hl hlt' (by omega)).le
+
+theorem fit_strict_le_last {l : List Nat} (hl : l.Pairwise (· < ·)) {c : Nat} (hc : c ∈ l) :
+    c ≤ l[l.length - 1]! := by
+  obtain ⟨i, hi, rfl⟩ := fit_mem_get! hc
+  rcases Nat.eq_or_lt_of_le (show i ≤ l.length - 1 by omega) with he | hlt'
+  · rw [← he]
+  · exact (fit_pairwise_get! hl hlt' (by omega)).le
+
+/-- the selected `X` thresholds are non-decreasing -/
+theorem fit_thresholds_sorted (h : fit_RVec r n) (hlen : xs.length = n)
+    (hxs : xs.Pairwise (· ≤ ·)) :
+    ((thresholdIdx r xs ys).map (fun i => xs[i]!)).Pairwise (· ≤ ·) := by
+  rw [List.pairwise_map]
+  refine (fit_thresholdIdx_strict (xs := xs) (ys := ys) h).imp_of_mem ?_
+  intro a b _ hb hab
+  exact fit_sorted_get! hxs hab.le (by rw [hlen]; exact fit_thresholdIdx_lt h b hb)
+
+/-- **Predictions at the training points are the fitted values.**  `xs` sorted, `ys` the fitted
+sequence with block vector `r`, ties in `xs` carry equal fitted values. -/
+theorem fit_train_eq (hlen : xs.length = ys.length) (hxs : xs.Pairwise (· ≤ ·))
+    (hb : BlockVec ys r)
+    (hties : ∀ i j, i < ys.length → j < ys.length → xs[i]! = xs[j]! → ys[i]! = ys[j]!)
+    (p : Nat) (hp : p < ys.length) :
+    interp ((thresholdIdx r xs ys).map (fun i => xs[i]!))
+      ((thresholdIdx r xs ys).map (fun i => ys[i]!)) xs[p]! = ys[p]! := by
+  have hne : ys ≠ [] := by intro h; rw [h] at hp; simp at hp
+  have h : fit_RVec r ys.length := fit_rvec_of_blockVec hb hne
+  have hstrict := fit_thresholdIdx_strict (xs := xs) (ys := ys) h
+  have hlt := fit_thresholdIdx_lt (xs := xs) (ys := ys) h
+  have hpos := fit_thresholdIdx_pos (r := r) (xs := xs) (ys := ys)
+  have hhead := fit_thresholdIdx_head (xs := xs) (ys := ys) h
+  have hstart := fun k hk => fit_start_mem (xs := xs) (ys := ys) h k hk
+  have hend := fun k hk => fit_end_mem (xs := xs) (ys := ys) h k hk
+  generalize thresholdIdx r xs ys = idx at *
+  have hN : 0 < (idx.map (fun i => xs[i]!)).length := by simpa using hpos
+  have hidx : ∀ j, j < idx.length → idx[j]! < ys.length := fun j hj => hlt _ (fit_get!_mem idx j hj)
+  obtain ⟨k, hk, hks, hke⟩ := fit_block_of h p hp
+  rcases fit_interp_spec (idx.map (fun i => xs[i]!)) (idx.map (fun i => ys[i]!)) xs[p]! hN with
+    ⟨h1, _⟩ | ⟨h1, h2⟩ | ⟨j, hj, h1, h3, h4⟩
+  · -- below the first threshold: impossible
+    rw [fit_get!_map _ _ _ hpos, hhead] at h1
+    exact absurd (lt_of_lt_of_le h1 (fit_sorted_get! hxs (Nat.zero_le p) (by omega))) (lt_irrefl _)
+  · -- at or beyond the last threshold
+    rw [List.length_map] at h1 h2
+    rw [fit_get!_map _ _ _ (by omega)] at h1
+    rw [h2, fit_get!_map _ _ _ (by omega)]
+    have ht := hidx (idx.length - 1) (by omega)
+    by_cases hpt : p ≤ idx[idx.length - 1]!
+    · exact hties _ _ ht hp (le_antisymm h1 (fit_sorted_get! hxs hpt (by omega)))
+    · rw [not_le] at hpt
+      have hs : r[k]! ≤ idx[idx.length - 1]! := fit_strict_le_last hstrict (hstart k hk)
+      exact fit_same_block hb h hk hs hpt.le hke
+  · -- on an interior segment
+    rw [List.length_map] at hj
+    rw [fit_get!_map _ _ _ (by omega)] at h1
+    rw [fit_get!_map _ _ _ (by omega)] at h3
+    rw [h4, fit_get!_map _ _ _ (by omega), fit_get!_map _ _ _ (by omega),
+      fit_get!_map _ _ _ (by omega), fit_get!_map _ _ _ (by omega)]
+    have ha := hidx j (by omega)
+    have hbn := hidx (j + 1) hj
+    have hpb : p < idx[j + 1]! := fit_sorted_lt_of_get!_lt hxs (by omega) h3
+    by_cases hpa : p ≤ idx[j]!
+    · have e : xs[idx[j]!]! = xs[p]! := le_antisymm h1 (fit_sorted_get! hxs hpa (by omega))
+      rw [e, sub_self, mul_zero, add_zero]
+      exact hties _ _ ha hp e
+    · rw [not_le] at hpa
+      have hs : r[k]! ≤ idx[j]! :=
+        fit_strict_neighbours hstrict hj (hstart k hk) (lt_of_le_of_lt hks hpb)
+      have e1 : ys[idx[j]!]! = ys[p]! := fit_same_block hb h hk hs hpa.le hke
+      by_cases hbe : idx[j + 1]! < r[k + 1]!
+      · have e2 : ys[idx[j]!]! = ys[idx[j + 1]!]! :=
+          fit_same_block hb h hk hs (by omega) hbe
+        rw [← e2, sub_self, zero_div, zero_mul, add_zero, e1]
+      · rw [not_lt] at hbe
+        exfalso
+        by_cases hk2 : k + 2 < r.length
+        · have := fit_strict_neighbours hstrict hj (hend k hk2) (by omega)
+          omega
+        · have : k + 1 = r.length - 1 := by omega
+          rw [this, h.last] at hbe
+          omega
+
+end Train
+
+/-! ## D. No block boundary inside a non-increasing run -/
+
+section NoBoundary
+variable {L : Type} [LinearOrder L] {ok : Obs L → Prop} {T : List (Obs L) → L}
+
+/-- Across every interior block boundary of a list of `Good` blocks with strictly increasing values
+the raw data strictly increase: `y_k ≤ val(block of k) < val(next block) ≤ y_{k+1}`. -/
+theorem fit_boundary_lt (hT : Internal ok T) (bs : List (Blk L)) (hg : ∀ b ∈ bs, Good ok T b)
+    (hpw : bs.Pairwise (fun a b => a.val < b.val)) :
+    ∀ k u v, k + 1 ∈ bounds bs → (bs.flatMap (·.data))[k]? = some u →
+      (bs.flatMap (·.data))[k + 1]? = some v → u.1 < v.1 := by
+  induction bs with
+  | nil => intro k u v _ hu; simp at hu
+  | cons b rest ih =>
+    intro k u v hk hu hv
+    have hgb : Good ok T b := hg b (by simp)
+    have hg' : ∀ b' ∈ rest, Good ok T b' := fun b' hb' => hg b' (by simp [hb'])
+    obtain ⟨hpw1, hpw2⟩ := List.pairwise_cons.mp hpw
+    rw [bounds_cons] at hk
+    rw [List.flatMap_cons] at hu hv
+    rcases List.mem_cons.mp hk with hk0 | hk
+    · omega
+    obtain ⟨j, hj, hjk⟩ := List.mem_map.mp hk
+    rcases Nat.eq_zero_or_pos j with rfl | hjpos
+    · -- the boundary between `b` and the first block of `rest`
+      have hkl : k + 1 = b.data.length := by omega
+      rw [List.getElem?_append_left (by omega)] at hu
+      rw [List.getElem?_append_right (by omega), show k + 1 - b.data.length = 0 by omega] at hv
+      cases rest with
+      | nil => simp at hv
+      | cons b' rest' =>
+        have hgb' : Good ok T b' := hg' b' (by simp)
+        have hlen' : 0 < b'.data.length := List.length_pos_iff.mpr hgb'.ne
+        rw [List.flatMap_cons, List.getElem?_append_left hlen'] at hv
+        -- `u` is the last element of `b`, `v` the first element of `b'`
+        have hu' : b.data.getLast? = some u := by
+          rw [List.getLast?_eq_getElem?, ← hu]; congr 1; omega
+        have hdec : b.data = b.data.dropLast ++ [u] :=
+          (List.dropLast_append_getLast? u hu').symm
+        have hv' : b'.data.head? = some v := by rw [List.head?_eq_getElem?]; exact hv
+        obtain ⟨t, ht⟩ := List.head?_eq_some_iff.mp hv'
+        have oku : ok u := hgb.allok u (by rw [hdec]; simp)
+        have okv : ok v := hgb'.allok v (by rw [ht]; simp)
+        have h1 : u.1 ≤ b.val := by
+          have := hgb.suf b.data.dropLast [u] (by simp) hdec
+          rwa [hT.single u oku] at this
+        have h2 : b'.val ≤ v.1 := by
+          have := hgb'.pre [v] t (by simp) (by rw [ht]; rfl)
+          rwa [hT.single v okv] at this
+        exact lt_of_le_of_lt h1 (lt_of_lt_of_le (hpw1 b' (by simp)) h2)
+    · -- a boundary inside `rest`
+      have hkl : b.data.length ≤ k := by omega
+      rw [List.getElem?_append_right hkl] at hu
+      rw [List.getElem?_append_right (by omega),
+        show k + 1 - b.data.length = (k - b.data.length) + 1 by omega] at hv
+      refine ih hg' hpw2 (k - b.data.length) u v ?_ hu hv
+      rw [show k - b.data.length + 1 = j by omega]
+      exact hj
+
+/-- **The mathematical heart of tie handling.**  The generalised PAVA never puts a block boundary
+between two consecutive observations whose responses do not strictly increase. -/
+theorem gpava_no_boundary_of_ge (hT : Internal ok T) (ys : List (Obs L)) (hys : ∀ o ∈ ys, ok o)
+    (k : Nat) (u v : Obs L) (hu : ys[k]? = some u) (hv : ys[k + 1]? = some v) (hge : v.1 ≤ u.1) :
+    k + 1 ∉ bounds (gpava T ys) := by
+  obtain ⟨hg, hpw, hflat⟩ := gpava_spec hT ys hys
+  intro hmem
+  have := fit_boundary_lt hT (gpava T ys) hg hpw k u v hmem (by rw [hflat]; exact hu)
+    (by rw [hflat]; exact hv)
+  exact absurd this (not_lt.mpr hge)
+
+/-- a run `i..j` of consecutive observations with non-increasing responses lies in one block -/
+theorem gpava_run_one_block (hT : Internal ok T) (ys : List (Obs L)) (hys : ∀ o ∈ ys, ok o)
+    (i j : Nat) (hj : j < ys.length)
+    (hrun : ∀ k, i ≤ k → k < j → ∀ u v, ys[k]? = some u → ys[k + 1]? = some v → v.1 ≤ u.1) :
+    ∀ b ∈ bounds (gpava T ys), b ≤ i ∨ j < b := by
+  intro b hb
+  by_contra hcon
+  rw [not_or, not_le, not_lt] at hcon
+  have hk : b - 1 + 1 = b := by omega
+  have h1 : b - 1 < ys.length := by omega
+  have h2 : b - 1 + 1 < ys.length := by omega
+  refine gpava_no_boundary_of_ge hT ys hys (b - 1) ys[b - 1] ys[b - 1 + 1]
+    (List.getElem?_eq_getElem h1) (List.getElem?_eq_getElem h2) ?_ (by rw [hk]; exact hb)
+  exact hrun (b - 1) (by omega) (by omega) _ _ (List.getElem?_eq_getElem h1)
+    (List.getElem?_eq_getElem h2)
+
+/-- … hence the fitted values agree on the run -/
+theorem gpava_run_const (hT : Internal ok T) (ys : List (Obs L)) (hys : ∀ o ∈ ys, ok o)
+    (i j : Nat) (hij : i ≤ j) (hj : j < ys.length)
+    (hrun : ∀ k, i ≤ k → k < j → ∀ u v, ys[k]? = some u → ys[k + 1]? = some v → v.1 ≤ u.1) :
+    (expand (gpava T ys))[i]? = (expand (gpava T ys))[j]? := by
+  obtain ⟨hlen, hbv, _⟩ := gpava_contract hT ys hys
+  exact hbv.const i j hij (by rw [hlen]; exact hj) (gpava_run_one_block hT ys hys i j hj hrun)
+
+end NoBoundary
+
+/-! ### lifting to `eqFit` / `isoReg` -/
+
+section Lift
+
+omit [Inhabited K] in
+/-- a block-wise expansion is constant between two consecutive entries of `bounds` -/
+theorem fit_bexp_const_inside (bl : List (Blk K)) (ms : List K) (i j : Nat) (hij : i ≤ j)
+    (hj : j < (bexp bl ms).length) (hno : ∀ b ∈ bounds bl, b ≤ i ∨ j < b) :
+    (bexp bl ms)[i]? = (bexp bl ms)[j]? := by
+  induction bl generalizing ms i j with
+  | nil => simp at hj
+  | cons b bl ih =>
+    cases ms with
+    | nil => simp at hj
+    | cons m ms =>
+      rw [bexp_cons_cons] at hj ⊢
+      rw [List.length_append, List.length_replicate] at hj
+      have hb0 : b.data.length ∈ bounds (b :: bl) := by
+        rw [bounds_cons]
+        refine List.mem_cons_of_mem _ (List.mem_map.mpr ⟨0, ?_, by simp⟩)
+        rw [bounds_eq]; simp
+      by_cases h1 : j < b.data.length
+      · rw [List.getElem?_append_left (by simpa using (by omega : i < b.data.length)),
+          List.getElem?_append_left (by simpa using h1), List.getElem?_replicate,
+          List.getElem?_replicate, if_pos (by omega), if_pos h1]
+      · by_cases h2 : i < b.data.length
+        · rcases hno _ hb0 with h | h <;> omega
+        · rw [List.getElem?_append_right (by simp; omega),
+            List.getElem?_append_right (by simp; omega)]
+          simp only [List.length_replicate]
+          refine ih ms _ _ (by omega) (by omega) ?_
+          intro c hc
+          have : c + b.data.length ∈ bounds (b :: bl) := by
+            rw [bounds_cons]
+            exact List.mem_cons_of_mem _ (List.mem_map.mpr ⟨c, hc, rfl⟩)
+          rcases hno _ this with h | h
+          · left; omega
+          · right; omega
+
+omit [Inhabited K] in
+/-- the fit of every functional is constant along a run of consecutive observations whose
+responses do not strictly increase (oriented data) -/
+theorem fit_eqFit_run_const {f : Functional} {α : K} (hf : FitOK f α) (obs : List (Obs K))
+    (hpos : ∀ o ∈ obs, 0 < o.2) (i j : Nat) (hij : i ≤ j) (hj : j < obs.length)
+    (hrun : ∀ k, i ≤ k → k < j → ∀ u v, obs[k]? = some u → obs[k + 1]? = some v → v.1 ≤ u.1) :
+    (eqFit f α obs).1[i]? = (eqFit f α obs).1[j]? := by
+  cases f
+  · rw [eqFit_mean _ _ hpos]
+    exact gpava_run_const wmean_internal obs hpos i j hij hj hrun
+  · exact absurd rfl hf.notMedian
+  · obtain ⟨h0, h1⟩ := hf.lvl (Or.inl rfl)
+    exact gpava_run_const (expectileFun α h0 h1).internal obs hpos i j hij hj hrun
+  · obtain ⟨h0, h1⟩ := hf.lvl (Or.inr rfl)
+    show (quantileFit α obs).1[i]? = (quantileFit α obs).1[j]?
+    have hlen := quantileFit_length α h0 h1 obs
+    rw [quantileFit_fst] at hlen ⊢
+    exact fit_bexp_const_inside _ _ i j hij (by rw [hlen]; exact hj)
+      (gpava_run_one_block (quantFun α h0 h1).internal obs (fun _ _ => trivial) i j hj hrun)
+
+/-- the run condition of a tie group after the sort: consecutive responses between positions `i`
+and `j` do not increase (increasing fit) resp. do not decrease (decreasing fit) -/
+def fit_TieRun (inc : Bool) (y : List K) (i j : Nat) : Prop :=
+  ∀ k, i ≤ k → k < j → if inc then y[k + 1]! ≤ y[k]! else y[k]! ≤ y[k + 1]!
+
+theorem fit_get!_reverse {α : Type} [Inhabited α] (l : List α) (i : Nat) (hi : i < l.length) :
+    l.reverse[i]! = l[l.length - 1 - i]! := by
+  rw [fit_get!_eq_getD, fit_get!_eq_getD, List.getElem?_reverse hi]
+
+theorem fit_obs_fst (inc : Bool) (y wl : List K) (hlen : wl.length = y.length) (k : Nat)
+    (u : Obs K) (hu : (orient inc (y.zip wl))[k]? = some u) : (orient inc y)[k]! = u.1 := by
+  rw [← obs_map_fst inc y wl hlen, fit_get!_eq_getD, List.getElem?_map, hu]
+  rfl
+
+/-- **`C11_ties_one_block` at the level of `isoReg`**: along a run of consecutive responses that do
+not strictly increase in the fitted direction, the fit of every functional is constant. -/
+theorem fit_isoReg_run_const {fn : Option Functional} {α : K} {inc : Bool} {y : List K}
+    {w : Option (List K)} {x : List K} {r : List Nat} (h : isoReg fn α inc y w = .ok (x, r))
+    (i j : Nat) (hij : i ≤ j) (hj : j < y.length) (hrun : fit_TieRun inc y i j) :
+    x[i]! = x[j]! := by
+  obtain ⟨v, hv, rfl, _⟩ := isoReg_inv h
+  obtain ⟨hne, hlen, hpos, hf, _⟩ := eqValidate_ok hv
+  have hFlen := eqFit_length hf (orient inc (y.zip v.2.2)) (orient_zip_snd_pos inc hpos)
+  rw [obs_length inc y _ hlen] at hFlen
+  have hobs := obs_length inc y _ hlen
+  have hfst := fit_obs_fst inc y _ hlen
+  simp only [eqOut]
+  cases inc
+  · -- decreasing fit: everything is mirrored
+    simp only [orient_false] at *
+    rw [fit_get!_reverse _ _ (by omega), fit_get!_reverse _ _ (by omega), hFlen]
+    symm
+    apply fit_get!_of_get?
+    refine fit_eqFit_run_const hf _ (orient_zip_snd_pos false hpos) _ _ (by omega)
+      (by simp only [orient_false]; omega) ?_
+    intro k hk1 hk2 u v' hu hv'
+    have hk : k + 1 < y.length := by omega
+    rw [← hfst k u hu, ← hfst (k + 1) v' hv', fit_get!_reverse _ _ (by omega),
+      fit_get!_reverse _ _ (by omega)]
+    have := hrun (y.length - 1 - (k + 1)) (by omega) (by omega)
+    simp only [Bool.false_eq_true, if_false] at this
+    rwa [show y.length - 1 - (k + 1) + 1 = y.length - 1 - k by omega] at this
+  · simp only [orient_true] at *
+    apply fit_get!_of_get?
+    refine fit_eqFit_run_const hf _ (orient_zip_snd_pos true hpos) _ _ hij
+      (by simp only [orient_true]; omega) ?_
+    intro k hk1 hk2 u v' hu hv'
+    rw [← hfst k u hu, ← hfst (k + 1) v' hv']
+    have := hrun k hk1 hk2
+    simpa using this
+
+omit [Inhabited K] in
+theorem fit_eqFit_sorted {f : Functional} {α : K} (hf : FitOK f α) (obs : List (Obs K))
+    (hpos : ∀ o ∈ obs, 0 < o.2) : (eqFit f α obs).1.Pairwise (· ≤ ·) := by
+  cases f
+  · rw [eqFit_mean _ _ hpos]; exact expand_gpava_sorted wmean_internal obs hpos
+  · exact absurd rfl hf.notMedian
+  · obtain ⟨h0, h1⟩ := hf.lvl (Or.inl rfl)
+    exact expand_gpava_sorted (expectileFun α h0 h1).internal obs hpos
+  · obtain ⟨h0, h1⟩ := hf.lvl (Or.inr rfl)
+    exact quantileFit_sorted α h0 h1 obs
+
+omit [Inhabited K] in
+/-- the fit of every functional is monotone in the requested direction -/
+theorem fit_isoReg_monotone {fn : Option Functional} {α : K} {inc : Bool} {y : List K}
+    {w : Option (List K)} {x : List K} {r : List Nat} (h : isoReg fn α inc y w = .ok (x, r)) :
+    MonoDir inc x := by
+  obtain ⟨v, hv, rfl, _⟩ := isoReg_inv h
+  obtain ⟨hne, hlen, hpos, hf, _⟩ := eqValidate_ok hv
+  simp only [eqOut]
+  rw [monoDir_orient]
+  exact fit_eqFit_sorted hf _ (orient_zip_snd_pos inc hpos)
+
+end Lift
+
+/-! ## E. The sort -/
+
+section RowSort
+
+omit [Field K] [IsStrictOrderedRing K] [Inhabited K] in
+/-- the sort key: `X` ascending, ties by `y` descending (increasing fit) / ascending -/
+theorem fit_rowLe_iff (inc : Bool) (a b : Row K) :
+    rowLe inc a b = true ↔
+      a.x < b.x ∨ (a.x = b.x ∧ if inc then b.y ≤ a.y else a.y ≤ b.y) := by
+  unfold rowLe
+  rcases lt_trichotomy a.x b.x with h | h | h
+  · simp [h]
+  · cases inc <;> simp [h]
+  · simp [h, not_lt.mpr h.le, h.ne']
+
+omit [Field K] [IsStrictOrderedRing K] [Inhabited K] in
+theorem fit_rowLe_total (inc : Bool) (a b : Row K) : (rowLe inc a b || rowLe inc b a) = true := by
+  rw [Bool.or_eq_true, fit_rowLe_iff, fit_rowLe_iff]
+  rcases lt_trichotomy a.x b.x with h | h | h
+  · exact Or.inl (Or.inl h)
+  · cases inc
+    · rcases le_total a.y b.y with h' | h'
+      · exact Or.inl (Or.inr ⟨h, by simpa using h'⟩)
+      · exact Or.inr (Or.inr ⟨h.symm, by simpa using h'⟩)
+    · rcases le_total a.y b.y with h' | h'
+      · exact Or.inr (Or.inr ⟨h.symm, by simpa using h'⟩)
+      · exact Or.inl (Or.inr ⟨h, by simpa using h'⟩)
+  · exact Or.inr (Or.inl h)
+
+omit [Field K] [IsStrictOrderedRing K] [Inhabited K] in
+theorem fit_rowLe_trans (inc : Bool) (a b c : Row K) (h1 : rowLe inc a b = true)
+    (h2 : rowLe inc b c = true) : rowLe inc a c = true := by
+  rw [fit_rowLe_iff] at *
+  rcases h1 with h1 | ⟨h1, h1'⟩ <;> rcases h2 with h2 | ⟨h2, h2'⟩
+  · exact Or.inl (lt_trans h1 h2)
+  · exact Or.inl (h2 ▸ h1)
+  · exact Or.inl (h1 ▸ h2)
+  · refine Or.inr ⟨h1.trans h2, ?_⟩
+    cases inc
+    · simp only [Bool.false_eq_true, if_false] at *; exact le_trans h1' h2'
+    · simp only [if_true] at *; exact le_trans h2' h1'
+
+omit [Field K] [IsStrictOrderedRing K] [Inhabited K] in
+/-- the sort key identifies rows up to their weight -/
+theorem fit_rowLe_antisymm (inc : Bool) (a b : Row K) (h1 : rowLe inc a b = true)
+    (h2 : rowLe inc b a = true) : a.x = b.x ∧ a.y = b.y := by
+  rw [fit_rowLe_iff] at *
+  rcases h1 with h1 | ⟨h1, h1'⟩ <;> rcases h2 with h2 | ⟨h2, h2'⟩
+  · exact absurd (lt_trans h1 h2) (lt_irrefl _)
+  · exact absurd (h2 ▸ h1) (lt_irrefl _)
+  · exact absurd (h1 ▸ h2) (lt_irrefl _)
+  · refine ⟨h1, ?_⟩
+    cases inc
+    · simp only [Bool.false_eq_true, if_false] at *; exact le_antisymm h1' h2'
+    · simp only [if_true] at *; exact le_antisymm h2' h1'
+
+omit [Field K] [IsStrictOrderedRing K] [Inhabited K] in
+theorem fit_sorted_pairwise (inc : Bool) (rows : List (Row K)) :
+    (rows.mergeSort (rowLe inc)).Pairwise (fun a b => rowLe inc a b = true) :=
+  List.pairwise_mergeSort (fit_rowLe_trans inc) (fit_rowLe_total inc) rows
+
+omit [Field K] [IsStrictOrderedRing K] [Inhabited K] in
+/-- after the sort the `X` column is non-decreasing -/
+theorem fit_sorted_x (inc : Bool) (rows : List (Row K)) :
+    ((rows.mergeSort (rowLe inc)).map (·.x)).Pairwise (· ≤ ·) := by
+  rw [List.pairwise_map]
+  refine (fit_sorted_pairwise inc rows).imp ?_
+  intro a b h
+  rcases (fit_rowLe_iff inc a b).mp h with h | ⟨h, _⟩
+  · exact h.le
+  · exact h.le
+
+/-- after the sort a tie group in `X` is a run of responses that do not increase (increasing fit)
+resp. do not decrease (decreasing fit) -/
+theorem fit_tieRun_of_sorted (inc : Bool) (l : List (Row K))
+    (hl : l.Pairwise (fun a b => rowLe inc a b = true)) (i j : Nat) (hj : j < l.length)
+    (hx : (l.map (·.x))[i]! = (l.map (·.x))[j]!) : fit_TieRun inc (l.map (·.y)) i j := by
+  intro k hk1 hk2
+  have hxs : (l.map (·.x)).Pairwise (· ≤ ·) := by
+    rw [List.pairwise_map]
+    refine hl.imp ?_
+    intro a b h
+    rcases (fit_rowLe_iff inc a b).mp h with h | ⟨h, _⟩
+    · exact h.le
+    · exact h.le
+  have hlen : (l.map (·.x)).length = l.length := List.length_map _
+  have h1 : (l.map (·.x))[i]! ≤ (l.map (·.x))[k]! := fit_sorted_get! hxs hk1 (by omega)
+  have h2 : (l.map (·.x))[k]! ≤ (l.map (·.x))[k + 1]! := fit_sorted_get! hxs (by omega) (by omega)
+  have h3 : (l.map (·.x))[k + 1]! ≤ (l.map (·.x))[j]! := fit_sorted_get! hxs (by omega) (by omega)
+  have he : (l.map (·.x))[k]! = (l.map (·.x))[k + 1]! :=
+    le_antisymm h2 (by rw [← hx] at h3; exact le_trans h3 h1)
+  have hk : k < l.length := by omega
+  have hk' : k + 1 < l.length := by omega
+  rw [fit_get! _ k (by omega), fit_get! _ (k + 1) (by omega), List.getElem_map,
+    List.getElem_map] at he
+  rw [fit_get! _ k (by simpa using hk), fit_get! _ (k + 1) (by simpa using hk'), List.getElem_map,
+    List.getElem_map]
+  have hle := List.pairwise_iff_getElem.mp hl k (k + 1) hk hk' (by omega)
+  rcases (fit_rowLe_iff inc _ _).mp hle with h | ⟨_, h⟩
+  · exact absurd h (by rw [he]; exact lt_irrefl _)
+  · exact h
+
+/-- the rows `fit` builds from its arguments -/
+def fit_rows (X y : List K) (w : Option (List K)) : List (Row K) :=
+  List.zipWith (fun (p : K × K) w => (⟨p.1, p.2, w⟩ : Row K)) (List.zip X y)
+    (match w with
+      | some w' => w'
+      | none => y.map (fun _ => (1 : K)))
+
+/-- the sorted training sample -/
+def fit_sorted (inc : Bool) (X y : List K) (w : Option (List K)) : List (Row K) :=
+  (fit_rows X y w).mergeSort (rowLe inc)
+
+theorem fit_bind_ok {ε α β : Type} {m : Except ε α} {f : α → Except ε β} {b : β}
+    (h : m >>= f = .ok b) : ∃ a, m = .ok a ∧ f a = .ok b := by
+  cases m with
+  | error e => cases h
+  | ok a => exact ⟨a, rfl, h⟩
+
+/-- inversion of a successful `fit` -/
+theorem fit_isoFit_inv {fn : Option Functional} {α : K} {inc : Bool} {X y : List K}
+    {w : Option (List K)} {tx ty : List K} (h : isoFit fn α inc X y w = .ok (tx, ty)) :
+    X.length = y.length ∧ (∀ w', w = some w' → w'.length = y.length) ∧
+    ∃ yiso r, isoReg fn α inc ((fit_sorted inc X y w).map (·.y))
+        (w.map (fun _ => (fit_sorted inc X y w).map (·.w))) = .ok (yiso, r) ∧
+      tx = (thresholdIdx r ((fit_sorted inc X y w).map (·.x)) yiso).map
+        (fun i => ((fit_sorted inc X y w).map (·.x))[i]!) ∧
+      ty = (thresholdIdx r ((fit_sorted inc X y w).map (·.x)) yiso).map (fun i => yiso[i]!) := by
+  unfold isoFit at h
+  by_cases h1 : X.length ≠ y.length
+  · rw [if_pos h1] at h
+    cases h
+  rw [if_neg h1] at h
+  rw [not_not] at h1
+  cases w with
+  | none =>
+    obtain ⟨⟨yiso, r⟩, hr, hp⟩ := fit_bind_ok h
+    refine ⟨h1, fun w' hw => (by cases hw), yiso, r, hr, ?_⟩
+    have := Except.ok.inj hp
+    exact ⟨(Prod.mk.inj this).1.symm, (Prod.mk.inj this).2.symm⟩
+  | some w' =>
+    by_cases h2 : w'.length ≠ y.length
+    · simp only [if_pos h2] at h
+      cases h
+    simp only [if_neg h2] at h
+    rw [not_not] at h2
+    obtain ⟨⟨yiso, r⟩, hr, hp⟩ := fit_bind_ok h
+    refine ⟨h1, fun w'' hw => (by cases hw; exact h2), yiso, r, hr, ?_⟩
+    have := Except.ok.inj hp
+    exact ⟨(Prod.mk.inj this).1.symm, (Prod.mk.inj this).2.symm⟩
+
+/-- **`C11_ties_one_block` for the model's sort**: on the sorted sample, positions with equal `X`
+carry equal fitted values — for every functional and both directions. -/
+theorem fit_ties_one_block {fn : Option Functional} {α : K} {inc : Bool} (rows : List (Row K))
+    (wopt : Option (List K)) {yiso : List K} {r : List Nat}
+    (h : isoReg fn α inc ((rows.mergeSort (rowLe inc)).map (·.y)) wopt = .ok (yiso, r))
+    (i j : Nat) (hi : i < yiso.length) (hj : j < yiso.length)
+    (hx : ((rows.mergeSort (rowLe inc)).map (·.x))[i]! = ((rows.mergeSort (rowLe inc)).map (·.x))[j]!) :
+    yiso[i]! = yiso[j]! := by
+  have hlen := isoReg_length h
+  rw [List.length_map] at hlen
+  have hs := fit_sorted_pairwise inc rows
+  rcases le_total i j with hij | hij
+  · exact fit_isoReg_run_const h i j hij (by simpa using (by omega : j < (rows.mergeSort (rowLe inc)).length))
+      (fit_tieRun_of_sorted inc _ hs i j (by omega) hx)
+  · exact (fit_isoReg_run_const h j i hij (by simpa using (by omega : i < (rows.mergeSort (rowLe inc)).length))
+      (fit_tieRun_of_sorted inc _ hs j i (by omega) hx.symm)).symm
+
+end RowSort
+
+/-! ## F. The fitted model: `isoFit` followed by `interp` -/
+
+section Main
+variable {fn : Option Functional} {α : K} {inc : Bool} {X y : List K} {w : Option (List K)}
+  {tx ty yiso : List K} {r : List Nat}
+
+/-- the facts about a successful `fit` that the prediction theorems need: `xs` is the sorted `X`
+column, `(yiso, r)` the isotonic fit of the sorted responses -/
+structure fit_Fitted (inc : Bool) (xs yiso : List K) (r : List Nat) (tx ty : List K) : Prop where
+  len : xs.length = yiso.length
+  ne : yiso ≠ []
+  sorted : xs.Pairwise (· ≤ ·)
+  block : BlockVec yiso r
+  mono : MonoDir inc yiso
+  ties : ∀ i j, i < yiso.length → j < yiso.length → xs[i]! = xs[j]! → yiso[i]! = yiso[j]!
+  tx_eq : tx = (thresholdIdx r xs yiso).map (fun i => xs[i]!)
+  ty_eq : ty = (thresholdIdx r xs yiso).map (fun i => yiso[i]!)
+
+/-- a successful `fit` yields a `fit_Fitted` record -/
+theorem fit_isoFit_fitted (h : isoFit fn α inc X y w = .ok (tx, ty))
+    (hr : isoReg fn α inc ((fit_sorted inc X y w).map (·.y))
+      (w.map (fun _ => (fit_sorted inc X y w).map (·.w))) = .ok (yiso, r)) :
+    fit_Fitted inc ((fit_sorted inc X y w).map (·.x)) yiso r tx ty := by
+  obtain ⟨_, _, yiso', r', hr', htx, hty⟩ := fit_isoFit_inv h
+  rw [hr] at hr'
+  obtain ⟨rfl, rfl⟩ := Prod.mk.inj (Except.ok.inj hr')
+  have hlen := isoReg_length hr
+  rw [List.length_map] at hlen
+  have hne : yiso ≠ [] := by
+    obtain ⟨v, hv, _, _⟩ := isoReg_inv hr
+    have := (eqValidate_ok hv).1
+    intro he
+    rw [he] at hlen
+    apply this
+    apply List.eq_nil_of_length_eq_zero
+    rw [List.length_map]
+    exact hlen.symm
+  exact ⟨by rw [List.length_map]; exact hlen.symm, hne, fit_sorted_x inc _, isoReg_blockVec hr,
+    fit_isoReg_monotone hr, fun i j hi hj hx => fit_ties_one_block _ _ hr i j hi hj hx, htx, hty⟩
+
+/-- a successful `fit` always comes with its isotonic fit -/
+theorem fit_isoFit_exists (h : isoFit fn α inc X y w = .ok (tx, ty)) :
+    ∃ yiso r, isoReg fn α inc ((fit_sorted inc X y w).map (·.y))
+      (w.map (fun _ => (fit_sorted inc X y w).map (·.w))) = .ok (yiso, r) := by
+  obtain ⟨_, _, yiso, r, hr, _⟩ := fit_isoFit_inv h
+  exact ⟨yiso, r, hr⟩
+
+variable {xs : List K}
+
+theorem fit_Fitted.rvec (F : fit_Fitted inc xs yiso r tx ty) : fit_RVec r yiso.length :=
+  fit_rvec_of_blockVec F.block F.ne
+
+theorem fit_Fitted.tx_sorted (F : fit_Fitted inc xs yiso r tx ty) : tx.Pairwise (· ≤ ·) := by
+  rw [F.tx_eq]
+  exact fit_thresholds_sorted F.rvec F.len F.sorted
+
+theorem fit_Fitted.tx_pos (F : fit_Fitted inc xs yiso r tx ty) : 0 < tx.length := by
+  rw [F.tx_eq, List.length_map]; exact fit_thresholdIdx_pos
+
+theorem fit_Fitted.ty_len (F : fit_Fitted inc xs yiso r tx ty) : ty.length = tx.length := by
+  rw [F.tx_eq, F.ty_eq, List.length_map, List.length_map]
+
+/-- the threshold values are monotone in the fitted direction -/
+theorem fit_Fitted.ty_mono (F : fit_Fitted inc xs yiso r tx ty) : MonoDir inc ty := by
+  have hstrict := fit_thresholdIdx_strict (xs := xs) (ys := yiso) F.rvec
+  have hlt := fit_thresholdIdx_lt (xs := xs) (ys := yiso) F.rvec
+  have hm := F.mono
+  rw [F.ty_eq]
+  cases inc
+  · rw [monoDir_false] at hm ⊢
+    rw [List.pairwise_map]
+    refine hstrict.imp_of_mem ?_
+    intro a b _ hb hab
+    exact fit_pairwise_get! hm hab (hlt b hb)
+  · rw [monoDir_true] at hm ⊢
+    rw [List.pairwise_map]
+    refine hstrict.imp_of_mem ?_
+    intro a b _ hb hab
+    exact fit_pairwise_get! hm hab (hlt b hb)
+
+/-- predictions at the (sorted) training points are the fitted values -/
+theorem fit_Fitted.train (F : fit_Fitted inc xs yiso r tx ty) (p : Nat) (hp : p < yiso.length) :
+    interp tx ty xs[p]! = yiso[p]! := by
+  rw [F.tx_eq, F.ty_eq]
+  exact fit_train_eq F.len F.sorted F.block F.ties p hp
+
+/-- the prediction function is monotone in the fitted direction -/
+theorem fit_Fitted.predict_mono (F : fit_Fitted inc xs yiso r tx ty) (q₁ q₂ : K) (hq : q₁ ≤ q₂) :
+    if inc then interp tx ty q₁ ≤ interp tx ty q₂ else interp tx ty q₂ ≤ interp tx ty q₁ := by
+  have hm := F.ty_mono
+  cases inc
+  · simp only [Bool.false_eq_true, if_false]
+    exact fit_interp_anti tx ty F.tx_pos F.ty_len F.tx_sorted hm q₁ q₂ hq
+  · simp only [if_true]
+    exact fit_interp_mono tx ty F.tx_pos F.ty_len F.tx_sorted hm q₁ q₂ hq
+
+/-- predictions are constant at and below the smallest training `X` … -/
+theorem fit_Fitted.predict_below (F : fit_Fitted inc xs yiso r tx ty) (q : K) (hq : q ≤ xs[0]!) :
+    interp tx ty q = yiso[0]! := by
+  have hn : 0 < yiso.length := List.length_pos_iff.mpr F.ne
+  rcases lt_or_eq_of_le hq with hlt | rfl
+  · have h0 : tx[0]! = xs[0]! := by
+      rw [F.tx_eq, fit_get!_map _ _ _ fit_thresholdIdx_pos, fit_thresholdIdx_head F.rvec]
+    rw [fit_interp_left tx ty q (by rw [h0]; exact hlt), F.ty_eq,
+      fit_get!_map _ _ _ fit_thresholdIdx_pos, fit_thresholdIdx_head F.rvec]
+  · exact F.train 0 hn
+
+/-- … and at and above the largest training `X` -/
+theorem fit_Fitted.predict_above (F : fit_Fitted inc xs yiso r tx ty) (q : K)
+    (hq : xs[yiso.length - 1]! ≤ q) : interp tx ty q = yiso[yiso.length - 1]! := by
+  have hn : 0 < yiso.length := List.length_pos_iff.mpr F.ne
+  have hlast : tx[tx.length - 1]! ≤ xs[yiso.length - 1]! := by
+    have hp := F.tx_pos
+    have hlen : tx.length = (thresholdIdx r xs yiso).length := by rw [F.tx_eq, List.length_map]
+    have hb : (thresholdIdx r xs yiso)[tx.length - 1]! < yiso.length :=
+      fit_thresholdIdx_lt F.rvec _ (fit_get!_mem _ _ (by omega))
+    have e : tx[tx.length - 1]! = xs[(thresholdIdx r xs yiso)[tx.length - 1]!]! := by
+      conv_lhs => rw [F.tx_eq]
+      rw [fit_get!_map _ _ _ (by rw [List.length_map]; omega), List.length_map, ← hlen]
+    rw [e]
+    exact fit_sorted_get! F.sorted (by omega) (by rw [F.len]; omega)
+  rw [fit_interp_right tx ty q F.tx_pos F.tx_sorted (le_trans hlast hq),
+    ← fit_interp_right tx ty _ F.tx_pos F.tx_sorted hlast]
+  exact F.train _ (by omega)
+
+end Main
+
+/-! ## G. Row order -/
+
+section RowOrder
+
+omit [Field K] [IsStrictOrderedRing K] [Inhabited K] in
+/-- The sorted sample does not depend on the order of the rows, provided rows with the same
+`(X, y)` also have the same weight (always true without weights). -/
+theorem fit_mergeSort_perm_eq (inc : Bool) {rows₁ rows₂ : List (Row K)} (hp : rows₁.Perm rows₂)
+    (hdup : ∀ a ∈ rows₁, ∀ b ∈ rows₁, a.x = b.x → a.y = b.y → a.w = b.w) :
+    rows₁.mergeSort (rowLe inc) = rows₂.mergeSort (rowLe inc) := by
+  refine List.Perm.eq_of_pairwise (le := fun a b => rowLe inc a b = true) ?_
+    (fit_sorted_pairwise inc rows₁) (fit_sorted_pairwise inc rows₂)
+    ((List.mergeSort_perm rows₁ _).trans (hp.trans (List.mergeSort_perm rows₂ _).symm))
+  intro a b ha hb h1 h2
+  have ha' : a ∈ rows₁ := List.mem_mergeSort.mp ha
+  have hb' : b ∈ rows₁ := hp.mem_iff.mpr (List.mem_mergeSort.mp hb)
+  obtain ⟨hx, hy⟩ := fit_rowLe_antisymm inc a b h1 h2
+  have hw := hdup a ha' b hb' hx hy
+  cases a; cases b
+  simp only at hx hy hw
+  rw [hx, hy, hw]
+
+omit [Field K] [IsStrictOrderedRing K] [Inhabited K] in
+/-- In general (conflicting weights on duplicate `(X, y)` rows allowed) the sorted `X` and `y`
+columns do not depend on the order of the rows. -/
+theorem fit_mergeSort_perm_keys (inc : Bool) {rows₁ rows₂ : List (Row K)} (hp : rows₁.Perm rows₂) :
+    (rows₁.mergeSort (rowLe inc)).map (fun a => (a.x, a.y))
+      = (rows₂.mergeSort (rowLe inc)).map (fun a => (a.x, a.y)) := by
+  have hpw : ∀ rows : List (Row K),
+      ((rows.mergeSort (rowLe inc)).map (fun a => (a.x, a.y))).Pairwise
+        (fun k₁ k₂ : K × K => k₁.1 < k₂.1 ∨ (k₁.1 = k₂.1 ∧ if inc then k₂.2 ≤ k₁.2 else k₁.2 ≤ k₂.2)) := by
+    intro rows
+    rw [List.pairwise_map]
+    exact (fit_sorted_pairwise inc rows).imp (fun h => (fit_rowLe_iff inc _ _).mp h)
+  refine List.Perm.eq_of_pairwise ?_ (hpw rows₁) (hpw rows₂)
+    (((List.mergeSort_perm rows₁ _).trans (hp.trans (List.mergeSort_perm rows₂ _).symm)).map _)
+  rintro ⟨x₁, y₁⟩ ⟨x₂, y₂⟩ _ _ h1 h2
+  simp only at h1 h2
+  rcases h1 with h1 | ⟨h1, h1'⟩ <;> rcases h2 with h2 | ⟨h2, h2'⟩
+  · exact absurd (lt_trans h1 h2) (lt_irrefl _)
+  · exact absurd (h2 ▸ h1) (lt_irrefl _)
+  · exact absurd (h1 ▸ h2) (lt_irrefl _)
+  · subst h1
+    cases inc
+    · simp only [Bool.false_eq_true, if_false] at *; rw [le_antisymm h1' h2']
+    · simp only [if_true] at *; rw [le_antisymm h2' h1']
+
+/-- normal form of `fit` once the length checks pass: it is a function of the sorted sample (and of
+whether weights were given) -/
+theorem fit_isoFit_eq (fn : Option Functional) (α : K) (inc : Bool) (X y : List K)
+    (w : Option (List K)) (hX : X.length = y.length)
+    (hw : ∀ w', w = some w' → w'.length = y.length) :
+    isoFit fn α inc X y w =
+      (isoReg fn α inc ((fit_sorted inc X y w).map (·.y))
+        (w.map (fun _ => (fit_sorted inc X y w).map (·.w)))) >>= fun p =>
+      pure ((thresholdIdx p.2 ((fit_sorted inc X y w).map (·.x)) p.1).map
+              (fun i => ((fit_sorted inc X y w).map (·.x))[i]!),
+            (thresholdIdx p.2 ((fit_sorted inc X y w).map (·.x)) p.1).map (fun i => p.1[i]!)) := by
+  unfold isoFit
+  rw [if_neg (not_not.mpr hX)]
+  cases w with
+  | none => rfl
+  | some w' =>
+    simp only [if_neg (not_not.mpr (hw w' rfl))]
+    rfl
+
+/-- **Row order does not matter**: two training samples whose rows are permutations of each other
+(and on which rows with identical `(X, y)` have identical weights) give the same fitted model. -/
+theorem fit_isoFit_row_order_free (fn : Option Functional) (α : K) (inc : Bool)
+    (X₁ y₁ X₂ y₂ : List K) (w₁ w₂ : Option (List K))
+    (hX₁ : X₁.length = y₁.length) (hX₂ : X₂.length = y₂.length)
+    (hw₁ : ∀ w', w₁ = some w' → w'.length = y₁.length)
+    (hw₂ : ∀ w', w₂ = some w' → w'.length = y₂.length)
+    (hsome : w₁.isSome = w₂.isSome)
+    (hperm : (fit_rows X₁ y₁ w₁).Perm (fit_rows X₂ y₂ w₂))
+    (hdup : ∀ a ∈ fit_rows X₁ y₁ w₁, ∀ b ∈ fit_rows X₁ y₁ w₁, a.x = b.x → a.y = b.y → a.w = b.w) :
+    isoFit fn α inc X₁ y₁ w₁ = isoFit fn α inc X₂ y₂ w₂ := by
+  have hs : fit_sorted inc X₁ y₁ w₁ = fit_sorted inc X₂ y₂ w₂ :=
+    fit_mergeSort_perm_eq inc hperm hdup
+  rw [fit_isoFit_eq fn α inc X₁ y₁ w₁ hX₁ hw₁, fit_isoFit_eq fn α inc X₂ y₂ w₂ hX₂ hw₂, hs]
+  cases w₁ <;> cases w₂ <;> simp at hsome <;> rfl
+
+/-- without weights every row has weight `1` -/
+theorem fit_rows_none_w (X y : List K) : ∀ a ∈ fit_rows X y none, a.w = 1 := by
+  intro a ha
+  unfold fit_rows at ha
+  obtain ⟨i, hi, rfl⟩ := List.getElem_of_mem ha
+  simp
+
+/-- the unweighted case needs no side condition -/
+theorem fit_isoFit_row_order_free_unweighted (fn : Option Functional) (α : K) (inc : Bool)
+    (X₁ y₁ X₂ y₂ : List K) (hX₁ : X₁.length = y₁.length) (hX₂ : X₂.length = y₂.length)
+    (hperm : (List.zip X₁ y₁).Perm (List.zip X₂ y₂)) :
+    isoFit fn α inc X₁ y₁ none = isoFit fn α inc X₂ y₂ none := by
+  have hrows : ∀ X y : List K, X.length = y.length →
+      fit_rows X y none = (List.zip X y).map (fun p => (⟨p.1, p.2, 1⟩ : Row K)) := by
+    intro X y hlen
+    unfold fit_rows
+    apply List.ext_getElem
+    · simp
+    · intro i h1 h2
+      simp
+  refine fit_isoFit_row_order_free fn α inc X₁ y₁ X₂ y₂ none none hX₁ hX₂
+    (fun _ h => by cases h) (fun _ h => by cases h) rfl ?_ ?_
+  · rw [hrows X₁ y₁ hX₁, hrows X₂ y₂ hX₂]
+    exact hperm.map _
+  · intro a ha b hb _ _
+    rw [fit_rows_none_w X₁ y₁ a ha, fit_rows_none_w X₁ y₁ b hb]
+
+end RowOrder
+
+/-! ## H. Training points in the original order; optimality among functions of `X` -/
+
+section Optimal
+variable {fn : Option Functional} {α : K} {inc : Bool} {X y : List K} {w : Option (List K)}
+  {tx ty yiso xs : List K} {r : List Nat}
+
+/-- the predictions at the sorted training points, as a list, are the fitted sequence -/
+theorem fit_Fitted.train_list (F : fit_Fitted inc xs yiso r tx ty) :
+    xs.map (interp tx ty) = yiso := by
+  apply List.ext_getElem
+  · rw [List.length_map]; exact F.len
+  · intro p h1 h2
+    have := F.train p h2
+    rw [fit_get! yiso p h2, fit_get! xs p (by rw [F.len]; exact h2)] at this
+    rw [List.getElem_map]
+    exact this
+
+omit [Inhabited K] in
+theorem fit_monoDir_map (inc : Bool) {xs : List K} (hxs : xs.Pairwise (· ≤ ·)) (g : K → K)
+    (hg : if inc then Monotone g else Antitone g) : MonoDir inc (xs.map g) := by
+  cases inc
+  · simp only [Bool.false_eq_true, if_false] at hg
+    rw [monoDir_false, List.pairwise_map]
+    exact hxs.imp (fun h => hg h)
+  · simp only [if_true] at hg
+    rw [monoDir_true, List.pairwise_map]
+    exact hxs.imp (fun h => hg h)
+
+/-- If the fitted sequence is optimal for a score among all sequences that are monotone in the
+fitted direction, then the prediction function is optimal among all monotone functions of `X`
+(a function of `X` gives tied rows the same value; so does the fit — `ties`). -/
+theorem fit_Fitted.optimal (F : fit_Fitted inc xs yiso r tx ty) (S : Obs K → K → K)
+    (d : List (Obs K))
+    (hopt : ∀ zs : List K, zs.length = yiso.length → MonoDir inc zs → total S d yiso ≤ total S d zs)
+    (g : K → K) (hg : if inc then Monotone g else Antitone g) :
+    total S d (xs.map (interp tx ty)) ≤ total S d (xs.map g) := by
+  rw [F.train_list]
+  exact hopt _ (by rw [List.length_map]; exact F.len) (fit_monoDir_map inc F.sorted g hg)
+
+omit [Inhabited K] in
+/-- a total score over the columns of a list of rows is a sum over the rows -/
+theorem fit_total_rows (S : Obs K → K → K) (f : K → K) (l : List (Row K)) :
+    total S ((l.map (·.y)).zip (l.map (·.w))) ((l.map (·.x)).map f)
+      = (l.map (fun a => S (a.y, a.w) (f a.x))).sum := by
+  unfold total
+  induction l with
+  | nil => simp
+  | cons a l ih =>
+    simp only [List.map_cons, List.zip_cons_cons, List.zipWith_cons_cons, List.sum_cons]
+    rw [ih]
+
+/-- every original training row sits at some position of the sorted sample, and the prediction at
+its `X` is the fitted value at that position -/
+theorem fit_isoFit_train_orig (h : isoFit fn α inc X y w = .ok (tx, ty))
+    (hr : isoReg fn α inc ((fit_sorted inc X y w).map (·.y))
+      (w.map (fun _ => (fit_sorted inc X y w).map (·.w))) = .ok (yiso, r))
+    (k : Nat) (hk : k < X.length) :
+    ∃ p, p < yiso.length ∧ (fit_sorted inc X y w)[p]? = (fit_rows X y w)[k]? ∧
+      ((fit_sorted inc X y w).map (·.x))[p]! = X[k]! ∧ interp tx ty X[k]! = yiso[p]! := by
+  obtain ⟨hX, hw, _⟩ := fit_isoFit_inv h
+  have F := fit_isoFit_fitted h hr
+  have hlenr : (fit_rows X y w).length = X.length := by
+    unfold fit_rows
+    cases w with
+    | none => simp [hX]
+    | some w' => simp [hX, hw w' rfl]
+  have hk' : k < (fit_rows X y w).length := by omega
+  have hmem : (fit_rows X y w)[k] ∈ fit_sorted inc X y w :=
+    List.mem_mergeSort.mpr (List.getElem_mem hk')
+  obtain ⟨p, hp, hpe⟩ := List.getElem_of_mem hmem
+  have hxk : ((fit_rows X y w)[k]).x = X[k] := by
+    unfold fit_rows
+    simp
+  have hlen := F.len
+  rw [List.length_map] at hlen
+  have hxp : ((fit_sorted inc X y w).map (·.x))[p]! = X[k]! := by
+    rw [fit_get! _ p (by simpa using hp), List.getElem_map, hpe, hxk, fit_get! X k hk]
+  refine ⟨p, by omega, ?_, hxp, ?_⟩
+  · rw [List.getElem?_eq_getElem hp, List.getElem?_eq_getElem hk', hpe]
+  · rw [← hxp]
+    exact F.train p (by omega)
+
+/-- predictions never leave the range of the fitted values -/
+theorem fit_Fitted.predict_range (F : fit_Fitted inc xs yiso r tx ty) (q : K) :
+    if inc then yiso[0]! ≤ interp tx ty q ∧ interp tx ty q ≤ yiso[yiso.length - 1]!
+    else yiso[yiso.length - 1]! ≤ interp tx ty q ∧ interp tx ty q ≤ yiso[0]! := by
+  have hlo := F.predict_below (min q xs[0]!) (min_le_right _ _)
+  have hhi := F.predict_above (max q xs[yiso.length - 1]!) (le_max_right _ _)
+  have h1 := F.predict_mono (min q xs[0]!) q (min_le_left _ _)
+  have h2 := F.predict_mono q (max q xs[yiso.length - 1]!) (le_max_left _ _)
+  rw [hlo] at h1
+  rw [hhi] at h2
+  cases inc
+  · simp only [Bool.false_eq_true, if_false] at *
+    exact ⟨h2, h1⟩
+  · simp only [if_true] at *
+    exact ⟨h1, h2⟩
+
+/-- sequence optimality of the weighted mean fit (as `C01_optimal`) -/
+theorem fit_mean_seq_optimal (α : K) (inc : Bool) (y w : List K) (hlen : w.length = y.length)
+    (x : List K) (r : List Nat) (h : isoReg (some .mean) α inc y (some w) = .ok (x, r))
+    (zs : List K) (hz : zs.length = y.length) (hm : MonoDir inc zs) :
+    total sqErr.S (y.zip w) x ≤ total sqErr.S (y.zip w) zs := by
+  have hpos : ∀ v ∈ w, 0 < v := by
+    intro v hv
+    by_contra hcon
+    rw [isoReg_mean_weight_error α inc y w hlen ⟨v, hv, not_lt.mp hcon⟩] at h
+    cases h
+  have hne : y ≠ [] := by
+    obtain ⟨v, hv, _, _⟩ := isoReg_inv h
+    exact (eqValidate_ok hv).1
+  have hp := orient_zip_snd_pos inc (y := y) hpos
+  rw [isoReg_mean_x hne hlen hpos h]
+  refine orient_optimal sqErr.S inc (y.zip w) _ ?_ ?_ zs (hz.trans (zip_length_of_eq hlen).symm) hm
+  · rw [C01_expand_length _ hp, orient_length]
+  · intro zs' hl hs
+    exact C01_optimal_inc _ hp zs' hl hs
+
+/-- **Optimality among functions of `X`** (weighted mean): the fitted prediction function minimises
+the weighted squared error over the training rows among all functions of `X` that are monotone in
+the fitted direction. -/
+theorem fit_isoFit_optimal_mean (α : K) (inc : Bool) (X y wl tx ty : List K)
+    (h : isoFit (some .mean) α inc X y (some wl) = .ok (tx, ty)) (g : K → K)
+    (hg : if inc then Monotone g else Antitone g) :
+    ((fit_rows X y (some wl)).map
+        (fun a => a.w * ((a.y - interp tx ty a.x) * (a.y - interp tx ty a.x)))).sum
+      ≤ ((fit_rows X y (some wl)).map (fun a => a.w * ((a.y - g a.x) * (a.y - g a.x)))).sum := by
+  obtain ⟨yiso, r, hr⟩ := fit_isoFit_exists h
+  have F := fit_isoFit_fitted h hr
+  simp only [Option.map_some] at hr
+  have hopt := F.optimal sqErr.S _
+    (fun zs hz hm => fit_mean_seq_optimal α inc _ _ (by simp) yiso r hr zs
+      (by rw [hz, isoReg_length hr]) hm) g hg
+  rw [fit_total_rows, fit_total_rows] at hopt
+  have hperm : (fit_sorted inc X y (some wl)).Perm (fit_rows X y (some wl)) :=
+    List.mergeSort_perm _ _
+  rw [(hperm.map _).sum_eq, (hperm.map _).sum_eq] at hopt
+  exact hopt
+
+end Optimal
 
 end MD
